@@ -427,6 +427,7 @@ impl<T: Qcow2IoOps> Qcow2Dev<T> {
 
     //// flush refcount table and block dirty data to disk
     pub(crate) async fn flush_refcount(&self) -> Qcow2Result<()> {
+        let mut reftable_written = false;
         loop {
             #[cfg(qcow2_rs_verif)]
             crate::verif::probe("flush_refcount:wait-rt-read");
@@ -439,6 +440,13 @@ impl<T: Qcow2IoOps> Qcow2Dev<T> {
             if done {
                 break;
             }
+            reftable_written = true;
+        }
+        // Mappings are written once this returns, and they depend on the
+        // refcount table entries (a new refcount block is reachable only
+        // through its entry) as much as on the blocks themselves.
+        if reftable_written {
+            self.call_fsync(0, usize::MAX, 0).await?;
         }
         Ok(())
     }
